@@ -186,6 +186,10 @@ def _eval_expr(expr: ast.AST, env: Dict[str, object]):
         if fn in ("int", "float", "bool", "round", "str") and len(expr.args) == 1:
             return {"int": int, "float": float, "bool": bool, "round": round, "str": str}[fn](
                 eval_expr(expr.args[0], env))
+        if fn in ("list", "tuple", "set", "frozenset", "sorted", "len", "min", "max", "sum") and len(expr.args) == 1 and not expr.keywords:
+            v = eval_expr(expr.args[0], env)
+            return {"list": tuple, "tuple": tuple, "set": frozenset, "frozenset": frozenset, "sorted": lambda x: tuple(sorted(x)),
+                    "len": len, "min": min, "max": max, "sum": sum}[fn](v)
         if fn == "isinstance" and len(expr.args) == 2:
             v = eval_expr(expr.args[0], env)
             t = expr.args[1]
@@ -243,3 +247,37 @@ def eval_function(fn: ast.AST, env: Dict[str, object]):
     except _Return as r:
         return r.value
     return None
+
+
+def eval_resolved(expr: ast.AST, env: Dict[str, object], defs, depth: int = 4):
+    """eval_expr, but local names that are not bound in ``env`` are first resolved
+    through their single defining assignment (``n = len(x)``; ``a, b = (f(), g())``)."""
+    from .core import origin
+    env = dict(env)
+    if depth > 0:
+        for n in ast.walk(expr):
+            if isinstance(n, ast.Name) and n.id not in env and norm(n) not in env:
+                o = origin(defs, n, depth=1)
+                if o is not n and not (isinstance(o, ast.Name) and o.id == n.id):
+                    try:
+                        env[n.id] = eval_resolved(o, env, defs, depth - 1)
+                    except Undecided:
+                        pass
+    return eval_expr(expr, env)
+
+
+def module_constants(tree: ast.Module) -> Dict[str, object]:
+    """NAME = <literal> at module level (numbers, strings, tuples of them)"""
+    out: Dict[str, object] = {}
+    for st in tree.body:
+        if isinstance(st, ast.Assign) and len(st.targets) == 1 and isinstance(st.targets[0], ast.Name):
+            try:
+                out[st.targets[0].id] = eval_expr(st.value, {})
+            except Undecided:
+                pass
+        elif isinstance(st, ast.AnnAssign) and isinstance(st.target, ast.Name) and st.value is not None:
+            try:
+                out[st.target.id] = eval_expr(st.value, {})
+            except Undecided:
+                pass
+    return out
